@@ -33,8 +33,8 @@ def _count_expr(*a, **k):
 reader.read_command = _count_command
 reader.read_expr = _count_expr
 
-OPEN = ['{', '[', '\\x{', '\\x[', '\\item ', '\\begin{a}', '$', '\\[', '\\(', '\\textbf{', '\\newcommand{', '\\x{\\y{', '\\section{']
-CLOSE = {'{': '}', '[': ']', '\\x{': '}', '\\x[': ']', '\\item ': '', '\\begin{a}': '\\end{a}', '$': '$', '\\[': '\\]', '\\(': '\\)',
+OPEN = ['\\end{', '{', '[', '\\x{', '\\x[', '\\item ', '\\begin{a}', '$', '\\[', '\\(', '\\textbf{', '\\newcommand{', '\\x{\\y{', '\\section{']
+CLOSE = {'\\end{': '}', '{': '}', '[': ']', '\\x{': '}', '\\x[': ']', '\\item ': '', '\\begin{a}': '\\end{a}', '$': '$', '\\[': '\\]', '\\(': '\\)',
          '\\textbf{': '}', '\\newcommand{': '}', '\\x{\\y{': '}}', '\\section{': '}'}
 
 
@@ -57,6 +57,10 @@ def finding_class(unit):
     """known finding D23: the look-ahead for \\end / \\item parses the whole next command (arguments included) and rolls
     back, so a command with an argument directly inside an environment or an \\item is parsed twice per level"""
     u = ''.join(unit)
+    if '\\end{' in u and '\\begin{a}' in u:
+        # known finding D25 (tolerant mode): an environment that meets an \end whose name group does not match leaves it
+        # for the enclosing reader, which parses that group a second time
+        return 'D25'
     if ('\\begin{a}' in u or '\\item ' in u) and any(x in u for x in ('\\x{', '\\x[', '\\textbf{', '\\section{', '\\newcommand{',
                                                                           '\\x{\\y{')):
         return 'D23'
